@@ -592,6 +592,30 @@ def r11(ctx, facts):
         raise AnchorLost("CqlDuration::serialize: no vint encoding found")
 
 
+def r12(ctx, facts):
+    """optional time carriers (chrono-04 / time-03; compiled only in the `full` configuration = thorough tier): a CQL
+    timestamp / date is a signed count from the epoch, and the instant is bound as the unit it falls INTO (floor). Rust's
+    `/` and `%` truncate toward zero, so a conversion into CqlTimestamp / CqlDate that divides rounds every pre-epoch
+    instant with a sub-unit part one unit late (and disagrees with the sibling carrier)."""
+    r = ctx.rule("R12", "conversions of foreign date/time types into CqlTimestamp / CqlDate never use truncating `/` or `%` (floor, not round-toward-zero, across the epoch)", floor=0)
+    config = ctx.alias.get("default", "default")
+    bodies = [b for b in facts.find(r"^<scylla_cql_core::value::Cql(Timestamp|Date) as core::convert::(From|TryFrom)<") if not b.path.endswith("::_")]
+    for b in bodies:
+        src = b.path.split("<", 2)[2].split(">>::")[0]
+        bad = []
+        for bb in sorted(b.live_blocks):
+            for st in b.stmts(bb):
+                if st[0] == "A" and st[2][0] in ("bin", "cbin") and st[2][1] in ("Div", "Rem"):
+                    bad.append((st[2][1], b.stmt_span(st)))
+        r.instance("floor-not-truncate:%s:%s" % (b.path.split(" as ")[0].split("::")[-1], src), not bad,
+                   "`%s` in the conversion from %s: truncation toward zero binds a pre-epoch instant with a sub-unit part one unit late "
+                   "(use the floored accessors or div_euclid)" % (bad[0][0] if bad else "", src), bad[0][1] if bad else b.span)
+    if config == "full":
+        r.instance("population", len(bodies) >= 4, "only %d conversions into CqlTimestamp / CqlDate found under the full feature set (4 confirmed by hand)" % len(bodies), None, nontrivial=False)
+    else:
+        r.note("%s configuration: %d optional date/time conversions compiled in" % (config, len(bodies)))
+
+
 def check(ctx):
     facts = inline_view(ctx.facts("default"))
     A = Accept(facts)
@@ -600,7 +624,7 @@ def check(ctx):
         tabs = r1(ctx, facts, A)
     except AnchorLost as ex:
         ctx.rule("R1x", "anchors").fail("anchor-lost", str(ex))
-    for fn in ((lambda c, f: r2(c, f, tabs)) if tabs else None, r3, r4, r5, r6, r7, r8, r9, r10, r11):
+    for fn in ((lambda c, f: r2(c, f, tabs)) if tabs else None, r3, r4, r5, r6, r7, r8, r9, r10, r11, r12):
         if fn is None:
             continue
         try:
